@@ -22,6 +22,54 @@ LONG = ["m,n,m,m,n,m;m", "n,n,m;m,m"]
 VARBUDGET = [("3:1", "m,m,m;m"), ("1:3", "m;m,m,m"), ("3:1", "m,m,m;m,m"), ("0:2", ";m,m")]
 
 
+def zero_param_part(r, classified):
+    """Every option combination also compiles for a function that takes NO parameters (the matchers repeat the
+    parameter pattern zero or more times). One little program per family of arms (same qualifier); a family that
+    does not compile is reported with rustc's first error."""
+    import shutil
+    proj = os.path.join(core.BUILD, "c08-zero")
+    bindir = os.path.join(proj, "src", "bin")
+    os.makedirs(bindir, exist_ok=True)
+    open(os.path.join(proj, "Cargo.toml"), "w").write('[package]\nname = "c08zero"\nversion = "0.0.0"\nedition = "2021"\npublish = false\n[dependencies]\ninjectorpp = { path = "%s" }\n[workspace]\n' % core.REPO)
+    lock = os.path.join(core.REPO, "Cargo.lock")
+    if os.path.exists(lock):
+        shutil.copy(lock, os.path.join(proj, "Cargo.lock"))
+    for f in os.listdir(bindir):
+        os.remove(os.path.join(bindir, f))
+    fams = {}
+    for i, c in classified:
+        fams.setdefault(c["qual"], []).append((i, c))
+    names = {}
+    for k, (qual, lst) in enumerate(sorted(fams.items())):
+        name = "zero%d" % k
+        names[name] = (qual, len(lst))
+        body = ["#![allow(unused)]", "use injectorpp::interface::injector::*;", "static SIDE: std::sync::atomic::AtomicUsize = std::sync::atomic::AtomicUsize::new(0);", "fn main() {"]
+        for i, c in lst:
+            opts = ""
+            for o in c["opts"]:
+                opts += {"when": ", when: true", "assign": ", assign: { SIDE.fetch_add(1, std::sync::atomic::Ordering::SeqCst); }", "returns": ", returns: 1", "times": ", times: 1"}[o]
+            body.append("    { let _arm%d = injectorpp::fake!(func_type: %s() -> %s%s); }" % (i, qual, "()" if c["unit"] else "i32", opts))
+        body += ['    println!("ok");', "}"]
+        open(os.path.join(bindir, name + ".rs"), "w").write("\n".join(body) + "\n")
+    tdir = os.path.join(core.BUILD, "c08-zero-target")
+    for name in names:
+        exe = os.path.join(tdir, "debug", name)
+        if os.path.exists(exe):
+            os.remove(exe)
+    rc, out = core.sh(["cargo", "build", "--offline", "--bins", "--keep-going", "--message-format=short"], cwd=proj, env=core.env_offline({"CARGO_TARGET_DIR": tdir}), timeout=900)
+    built = [n for n in names if os.path.exists(os.path.join(tdir, "debug", n))]
+    if not built:
+        r.add_case("arms", -31, "zero-parameter-forms/build", "inconclusive", "zero-parameter-programs-did-not-build-at-all", {"cargo": out[-500:]})
+        return
+    for name, (qual, n) in sorted(names.items()):
+        cls = "zero-parameter-forms/%s" % qual
+        if name in built:
+            r.add_case("arms", -32, cls, "held", "", {"arms": n})
+        else:
+            errs = [l for l in out.split("\n") if ("bin/%s.rs" % name) in l and "error" in l]
+            r.add_case("arms", -32, cls, "violated", "arm-does-not-compile-for-a-function-without-parameters:%s" % qual.replace(" ", "-").replace('"', ""), {"arms": n, "rustc": (errs or [out[-300:]])[0][:400]})
+
+
 def run(tier, seed):
     r = core.Run("C08", tier, seed, "exploration", RULE)
     arms = armsgen.parse_arms(os.path.join(core.REPO, "src", "interface", "macros.rs"))
@@ -35,6 +83,7 @@ def run(tier, seed):
     shapes = [0, 1, 2] if tier == "thorough" else [0]
     budgets = [2, 0, 3] if tier == "thorough" else [2]
     proj, exes, errors = armsgen.build_all(classified, shapes)
+    zero_param_part(r, classified)
     jobs = []
     for i, c in classified:
         label = "%s/%s/[%s]" % (c["qual"], "unit" if c["unit"] else "non-unit", ",".join(c["opts"]))
